@@ -97,6 +97,7 @@ func waitDrained(dir string, limit time.Duration) (bool, []string) {
 func runQueueCase(t *testing.T, r *rep.Reporter, c *rep.Case, ci int) {
 	p := prng.New(r.Seed(), uint64(ci), "c16-queue")
 	verifkit.ResetSMTPErrorObservations()
+	resetInjected()
 	maxTries := p.Range(2, 3)
 	nR := p.Range(1, 4)
 	partial := p.Bool()
